@@ -319,7 +319,7 @@ class Explorer:
         self.max_paths = max_paths
         self.deadline = (time.time() + deadline_s) if deadline_s else None
         self.stop_on_violation = stop_on_violation
-        self.stack = []           # entries [value, other_pending, model_for_other]
+        self.stack = []           # entries [value, other_pending, model_for_other, payload]
         self.pos = 0
         self.model = None
         self.named = []           # (name, z3 term) inputs of the current path, for witness extraction
@@ -352,7 +352,7 @@ class Explorer:
         return None
 
     # -- called from symbolic values
-    def branch(self, cond):
+    def branch(self, cond, payload=None):
         cond = z3.simplify(cond)
         if z3.is_true(cond):
             return True
@@ -378,9 +378,9 @@ class Explorer:
                     self.model = self.solver.model()
         other = z3.Not(cond) if mv else cond
         if self._check(other):
-            entry = [mv, True, self.solver.model()]
+            entry = [mv, True, self.solver.model(), payload]
         else:
-            entry = [mv, False, None]
+            entry = [mv, False, None, payload]
         self.stack.append(entry)
         self.pos += 1
         self.solver.add(cond if mv else z3.Not(cond))
@@ -448,9 +448,12 @@ class Explorer:
         if isinstance(x, int):
             return x
         for _ in range(limit):
-            m = self.current_model()
-            v = m.eval(x.t, model_completion=True).as_long()
-            if self.branch(x.t == v):
+            if self.pos < len(self.stack) and self.stack[self.pos][3] is not None:
+                v = self.stack[self.pos][3]        # replay: the value chosen when this decision was first made
+            else:
+                m = self.current_model()
+                v = m.eval(x.t, model_completion=True).as_long()
+            if self.branch(x.t == v, payload=v):
                 return v
         raise Unsupported('too many values to enumerate for %s' % (x,))
 
@@ -494,7 +497,7 @@ class Explorer:
                         self.exhausted = True
                         break
                     e = self.stack[-1]
-                    self.stack[-1] = [not e[0], False, None]
+                    self.stack[-1] = [not e[0], False, None, e[3]]
                     self.model = e[2]
                 else:
                     self.model = None
